@@ -405,7 +405,7 @@ func c15JudgeHist(args, real, drv json.RawMessage) *core.Verdict {
 	// the property first (the spec decided on the real before/after pairs), then the tie
 	for i, s := range d.Steps {
 		c15Steps.Add(1)
-		if s.Via == "order" {
+		if s.Via == "pre-fix-order" {
 			c15ViaOrder.Add(1)
 		}
 		if r.Steps[i].Err != "" {
@@ -421,7 +421,11 @@ func c15JudgeHist(args, real, drv json.RawMessage) *core.Verdict {
 	}
 	for i, s := range d.Steps {
 		if !s.Agree {
-			return core.Disagree(fmt.Sprintf("step %d (%s %v %s): model ≠ real", i, a.Ops[i].Op, a.Ops[i].Names, a.Ops[i].Pol))
+			what := "model ≠ real"
+			if s.Via == "pre-fix-order" {
+				what = "model ≠ real (the result is one the pre-fix, order-dependent WithSelectedServices loop produces)"
+			}
+			return core.Disagree(fmt.Sprintf("step %d (%s %v %s): %s", i, a.Ops[i].Op, a.Ops[i].Names, a.Ops[i].Pol, what))
 		}
 	}
 	return nil
